@@ -1,6 +1,7 @@
 import TypVerif.Drv.Proto
 import TypVerif.Conc.Sys
 import TypVerif.Model.SyncMapConc
+import TypVerif.Model.SyncMapTrace
 /-
 Judge "C04conc": STEP-level traces of sync2.Map (`cmap`) and sync2.Set (`cset`) recorded from the real code under the
 controlled scheduler are replayed, step by step, in the transition system `Model.SyncMapConc` (the system the
@@ -13,6 +14,18 @@ controlled scheduler are replayed, step by step, in the transition system `Model
   res <t> <result>          goroutine t returns; the model's goroutine must be about to return the SAME result
 
 so a trace is accepted iff the real execution is, label for label and result for result, an execution of the model.
+
+MAP mode (`cmap`) is theorem-backed: every line is parsed into a `SyncMapTrace.Line Int Int` and handed to the pure
+function `SyncMapTrace.applyLinePad` on the single model state; the scenario is accepted iff `SyncMapTrace.replayPad
+(init 0) lines` is `some _`.  `C04.judge_accept_sound` (`Props/C04trace.lean`): then the lines are an execution of
+`SyncMapConc.sys` from `init n` and their invocation/response history is linearizable.  The judge fixes the number of
+goroutines `n` = (largest goroutine id of the scenario) + 1 LAZILY — it starts from `init 0` and appends idle goroutines
+when an `inv` line mentions a larger id — which is equivalent to starting from `init n` because idle goroutines take no
+internal steps and a missing goroutine already reads as idle (`Lemmas.SyncMapTrace.replayPad_replay`).  What stays
+unverified glue in map mode: tokenising, `parseOp`, `parseRes` (text → `Line`), the diagnostics.  The result of a `res`
+line is PARSED into a `Res Int Int` and compared as a value (`<v> true|false` is `(v, ok)` of Load/LoadAndDelete or
+`(actual, loaded)` of LoadOrStore, decided by the pending operation of that goroutine, which the judge remembers from
+the `inv` line).
 `model` is `ok` or `rejected:<why>` (reported once per scenario); there is no specification output (the
 linearizability of the same executions is judged by "ObjLin" on the API-level events).
 
@@ -24,6 +37,7 @@ exactly those of the map operation(s) it consists of.
 -/
 namespace TypVerif.Drv.C04conc
 open TypVerif TypVerif.Proto TypVerif.Model TypVerif.Model.SyncMapConc
+open TypVerif.Model.SyncMapTrace (Line applyLinePad pad)
 
 abbrev MS := SyncMapConc.State Int Int
 abbrev MOp := SyncMapConc.Op Int Int
@@ -47,10 +61,10 @@ instance : BEq Cand := ⟨fun a b => decide (a = b)⟩
 
 structure JSt where
   mode : Nat := 0               -- 0 unset, 1 map, 2 set
-  cands : List Cand := []
+  mst : MS := {}                -- map mode: the model state (`SyncMapTrace.replayPad` of the lines so far)
+  pend : List (Nat × MOp) := [] -- map mode: the operation each goroutine invoked last (to parse its result)
+  cands : List Cand := []       -- set mode: the candidates
   dead : Bool := false
-
-def pad (s : MS) (n : Nat) : MS := { s with pcs := s.pcs ++ List.replicate (n - s.pcs.length) .idle }
 
 def renderRes : MRes → String
   | .done => "done"
@@ -85,16 +99,38 @@ decreasing_by
   have := List.length_pos_of_mem h
   omega
 
-/-- invocation: the goroutine must be idle -/
-def doInv (c : Cand) (t : Nat) (toks : List Val) (setMode : Bool) : List Cand :=
+/-- the result tokens of a `res` line of goroutine whose pending operation is `pending`, as a model result:
+`done`; `<v> true|false` = `(v, ok)` of Load/LoadAndDelete (the zero value is printed when `ok` is false) or
+`(actual, loaded)` of LoadOrStore; `[[k,v],…]` = the callback sequence of Range -/
+def parseRes (pending : Option MOp) (toks : List Val) : Option MRes :=
+  let valLike (op : MOp) : Bool := match op with | .load _ => true | .loadAndDelete _ => true | _ => false
+  let bool? (w : String) : Option Bool := if w == "true" then some true else if w == "false" then some false else none
+  match toks with
+  | [.w "done"] => some .done
+  | [.i v, .w b] =>
+    match pending, bool? b with
+    | some (.loadOrStore _ _), some l => some (.pair v l)
+    | some op, some true => if valLike op then some (.val (some v)) else none
+    | some op, some false => if valLike op && v == 0 then some (.val none) else none
+    | _, _ => none
+  | [.l xs] =>
+    (xs.mapM (fun (x : Val) => match x with | .l [.i k, .i v] => some (k, v) | _ => none)).map .pairs
+  | _ => none
+
+/-- a map-mode line as a `SyncMapTrace.Line` -/
+def parseLine (pend : List (Nat × MOp)) (toks : List Val) : Option (Line Int Int) :=
+  match toks with
+  | .w "inv" :: .i t :: rest => (parseOp rest).map (.inv t.toNat)
+  | [.w "step", .i t, .w label] => some (.step t.toNat label)
+  | [.w "iter", .i t, .i k] => some (.iter t.toNat k)
+  | .w "res" :: .i t :: rest => (parseRes ((pend.find? (·.1 == t.toNat)).map (·.2)) rest).map (.res t.toNat)
+  | _ => none
+
+/-- set mode — invocation: the goroutine must be idle -/
+def doInv (c : Cand) (t : Nat) (toks : List Val) : List Cand :=
   let st := pad c.st (t + 1)
   match st.pc t with
   | .idle =>
-    if !setMode then
-      match parseOp toks with
-      | some op => [{ c with st := setPc st t st.sh (.start op) }]
-      | none => []
-    else
       match toks with
       | [.w "add", .i v] => [{ st := setPc st t st.sh (.start (.loadOrStore v 0)), comps := { t := t, kind := "add" } :: c.comps }]
       | [.w "remove", .i v] => [{ st := setPc st t st.sh (.start (.loadAndDelete v)), comps := { t := t, kind := "remove" } :: c.comps }]
@@ -185,32 +221,64 @@ def doRes (c : Cand) (t : Nat) (impl : String) : List Cand :=
 
 def describe (c : Cand) (t : Nat) : String := s!"model-goroutine-at:{(c.st.pc t).label}"
 
+/-- MAP mode: one line = one call of the verified pure function `SyncMapTrace.applyLinePad` on the single model state
+(`C04.judge_accept_sound`); everything else here is parsing and diagnostics -/
+def stepMap (j : JSt) (toks : List Val) : JSt × Out :=
+  let at0 (t : Nat) : String := s!"model-goroutine-at:{(j.mst.pc t).label}"
+  let run (pend' : List (Nat × MOp)) (why : Unit → String) (tags : List String) : JSt × Out :=
+    match (parseLine j.pend toks).bind (applyLinePad j.mst) with
+    | some s' => ({ j with mst := s', pend := pend' }, { model := "ok", tags := tags })
+    | none => ({ j with dead := true }, { model := s!"rejected:{why ()}", tags := tags })
+  match toks with
+  | .w "inv" :: .i t :: rest =>
+    let pend' := match parseOp rest with
+      | some op => (t.toNat, op) :: j.pend.filter (·.1 != t.toNat)
+      | none => j.pend
+    run pend' (fun _ => s!"inv-not-idle-or-bad-op:{at0 t.toNat}") ["inv"]
+  | [.w "step", .i t, .w label] =>
+    run j.pend (fun _ => s!"step-label-or-enabledness:{at0 t.toNat}") ["step:" ++ label]
+  | [.w "iter", .i t, .i _] =>
+    run j.pend (fun _ => s!"iter-key-not-pending:{at0 t.toNat}") ["iter"]
+  | .w "res" :: .i t :: rest =>
+    let impl := " ".intercalate (rest.map Val.render)
+    if impl.startsWith "panic:" then ({ j with dead := true }, { model := "rejected:panic-in-code-under-test", tags := ["panic"] })
+    else run j.pend (fun _ => s!"result-differs:{at0 t.toNat}:{match j.mst.pc t.toNat with | .ret r => renderRes r | _ => "-"}") ["res"]
+  | [.w "deadlock"] => ({ j with dead := true }, { model := "rejected:deadlock", tags := ["deadlock"] })
+  | [.w "steplimit"] => ({ j with dead := true }, { model := "rejected:steplimit", tags := ["steplimit"] })
+  | _ => (j, { model := "bad-op" })
+
+/-- SET mode: candidates and composite glue (unverified) -/
+def stepSet (j : JSt) (toks : List Val) : JSt × Out :=
+  let ok (j : JSt) (tags : List String) : JSt × Out := (j, { model := "ok", tags := tags })
+  let go (next : List Cand) (why : String) (tags : List String) : JSt × Out :=
+    let next := Conc.dedup next
+    if next.isEmpty then ({ j with dead := true, cands := [] }, { model := s!"rejected:{why}", tags := tags })
+    else ok { j with cands := next } tags
+  let at0 (t : Nat) : String := match j.cands with | c :: _ => describe c t | [] => "no-candidate"
+  match toks with
+  | .w "inv" :: .i t :: rest =>
+    go (j.cands.flatMap (fun c => doInv c t.toNat rest)) s!"inv-not-idle-or-bad-op:{at0 t.toNat}" ["inv"]
+  | [.w "step", .i t, .w label] =>
+    go (j.cands.flatMap (fun c => doStep c t.toNat label)) s!"step-label-or-enabledness:{at0 t.toNat}" ["step:" ++ label]
+  | [.w "iter", .i t, .i k] =>
+    go (j.cands.flatMap (fun c => doIter c t.toNat k)) s!"iter-key-not-pending:{at0 t.toNat}" ["iter"]
+  | .w "res" :: .i t :: rest =>
+    let impl := " ".intercalate (rest.map Val.render)
+    if impl.startsWith "panic:" then ({ j with dead := true }, { model := "rejected:panic-in-code-under-test", tags := ["panic"] })
+    else go (j.cands.flatMap (fun c => doRes c t.toNat impl)) s!"result-differs:{at0 t.toNat}:{match j.cands with | c :: _ => (match c.st.pc t.toNat with | .ret r => renderRes r | _ => "-") | [] => "-"}" ["res"]
+  | [.w "deadlock"] => ({ j with dead := true }, { model := "rejected:deadlock", tags := ["deadlock"] })
+  | [.w "steplimit"] => ({ j with dead := true }, { model := "rejected:steplimit", tags := ["steplimit"] })
+  | _ => (j, { model := "bad-op" })
+
 def step (j : JSt) (toks : List Val) (_impl : String) : JSt × Out :=
   let ok (j : JSt) (tags : List String) : JSt × Out := (j, { model := "ok", tags := tags })
   match toks with
-  | [.w "cmap"] => ok { mode := 1, cands := [{ st := SyncMapConc.init 0 }] } ["cmap"]
+  | [.w "cmap"] => ok { mode := 1, mst := SyncMapConc.init 0 } ["cmap"]
   | [.w "cset"] => ok { mode := 2, cands := [{ st := SyncMapConc.init 0 true }] } ["cset"]
   | _ =>
-    if j.dead || j.mode == 0 then ok j [] else
-    let go (next : List Cand) (why : String) (tags : List String) : JSt × Out :=
-      let next := Conc.dedup next
-      if next.isEmpty then ({ j with dead := true, cands := [] }, { model := s!"rejected:{why}", tags := tags })
-      else ok { j with cands := next } tags
-    let at0 (t : Nat) : String := match j.cands with | c :: _ => describe c t | [] => "no-candidate"
-    match toks with
-    | .w "inv" :: .i t :: rest =>
-      go (j.cands.flatMap (fun c => doInv c t.toNat rest (j.mode == 2))) s!"inv-not-idle-or-bad-op:{at0 t.toNat}" ["inv"]
-    | [.w "step", .i t, .w label] =>
-      go (j.cands.flatMap (fun c => doStep c t.toNat label)) s!"step-label-or-enabledness:{at0 t.toNat}" ["step:" ++ label]
-    | [.w "iter", .i t, .i k] =>
-      go (j.cands.flatMap (fun c => doIter c t.toNat k)) s!"iter-key-not-pending:{at0 t.toNat}" ["iter"]
-    | .w "res" :: .i t :: rest =>
-      let impl := " ".intercalate (rest.map Val.render)
-      if impl.startsWith "panic:" then ({ j with dead := true }, { model := "rejected:panic-in-code-under-test", tags := ["panic"] })
-      else go (j.cands.flatMap (fun c => doRes c t.toNat impl)) s!"result-differs:{at0 t.toNat}:{match j.cands with | c :: _ => (match c.st.pc t.toNat with | .ret r => renderRes r | _ => "-") | [] => "-"}" ["res"]
-    | [.w "deadlock"] => ({ j with dead := true }, { model := "rejected:deadlock", tags := ["deadlock"] })
-    | [.w "steplimit"] => ({ j with dead := true }, { model := "rejected:steplimit", tags := ["steplimit"] })
-    | _ => (j, { model := "bad-op" })
+    if j.dead || j.mode == 0 then ok j []
+    else if j.mode == 1 then stepMap j toks
+    else stepSet j toks
 
 def judge : Judge := { σ := JSt, init := {}, step := step }
 
